@@ -22,7 +22,8 @@ RULE = ("random histories of 1-40 public calls on 2 Hypergraph slots (+1 scratch
         "(missing node/hyperedge/attribute, weight on unweighted, short weight/metadata lists, repeated members in batches, "
         "order and size together); after every call a sampled set of queries on the touched slot, after every rejected call "
         "the full observable state against the state before, at the end of a history every query with every filter "
-        "order in -1..4 / size in 0..5 / up_to; thorough adds all histories of length <= 3 over a 26-call alphabet on 3 nodes. "
+        "order in -1..4 / size in 0..5 / up_to; thorough adds all histories of length <= 3 (unweighted; <= 2 weighted) over a "
+        "26-call alphabet on 3 nodes with the boundary filters at the end. "
         "A history is distinct by its canonical command text and non-trivial when it has >= 1 accepted removal and >= 1 "
         "insertion of a hyperedge that is or was present")
 ASSUMPTIONS = ["hyperedges are given as duplicate-free node tuples (the quantifier says node sets)",
@@ -746,6 +747,24 @@ def full_queries(n_nodes, pool):
     return qs
 
 
+def medium_queries(n_nodes, pool):
+    """every query, unfiltered and with the boundary filters; used at the end of the exhaustive short histories"""
+    qs = [(p,) for p in PLAIN]
+    for f in [(None, None), (0, None), (None, 1), (None, 0), (1, None), (None, 3), (1, 2)]:
+        for up in (False, True):
+            for name in ("edges", "numedges", "weightsdict"):
+                qs.append((name, (f[0], f[1], up)))
+        for name in ALLN_F:
+            qs.append((name, (f[0], f[1], False)))
+        for n in range(n_nodes):
+            qs.append(("incident", n, (f[0], f[1], False)))
+    for n in range(n_nodes):
+        qs += [("checknode", n), ("nodemeta", n), ("neighbors", n, (None, None, False)), ("isisolated", n, (None, None, False))]
+    for e in pool:
+        qs += [("checkedge", tuple(reversed(e))), ("weight", tuple(e)), ("edgemeta", tuple(e))]
+    return qs
+
+
 def light_queries(rng, n_nodes, pool):
     qs = [(p,) for p in PLAIN]
     fs = [(None, None, False)] + [rng.choice(FILTERS) + (rng.random() < 0.5,) for _ in range(2)]
@@ -1039,7 +1058,7 @@ class Problem(Exception):
         self.kind, self.what, self.step = kind, what, step
 
 
-def run_history(case, drv, rng, stats=None, full_every=False):
+def run_history(case, drv, rng, stats=None, full_every=False, small=False):
     """Runs the commands of `case` on REAL, ORACLE and MODEL.  Raises Problem at the first difference.
     Returns facts about the history (for the non-triviality rule)."""
     labels, cmds, n, pool = case["labels"], case["cmds"], len(case["labels"]), [tuple(e) for e in case["pool"]]
@@ -1110,7 +1129,10 @@ def run_history(case, drv, rng, stats=None, full_every=False):
                 facts["rejected"] += 1
                 facts.pop("reinsertion_try", None)
             touched = i
-            qs = full_queries(n, pool) if (not r_ok or full_every) else light_queries(rng, n, pool)
+            if small:
+                qs = medium_queries(n, pool) if not r_ok else []
+            else:
+                qs = full_queries(n, pool) if (not r_ok or full_every) else light_queries(rng, n, pool)
             queries(i, qs, step)   # after a rejected call the oracle state is the state before: full comparison
         elif c[0] == "new":
             _, i, w, hm = c
@@ -1162,23 +1184,26 @@ def run_history(case, drv, rng, stats=None, full_every=False):
         else:
             raise ValueError(c[0])
         flush(step)
-    for i in range(2):
-        queries(i, full_queries(n, pool), len(cmds))
+    if small:
+        queries(0, medium_queries(n, pool), len(cmds))
+    else:
+        for i in range(2):
+            queries(i, full_queries(n, pool), len(cmds))
     flush(len(cmds))
     return facts
 
 
-def check_history(ctx, drv, case, rng, stats, full_every=False, record=True):
+def check_history(ctx, drv, case, rng, stats, full_every=False, record=True, small=False):
     """returns None or a Problem"""
     signal.signal(signal.SIGALRM, _alarm)
-    signal.alarm(60)
+    signal.alarm(20)
     try:
-        facts = run_history(case, drv, rng, stats, full_every)
+        facts = run_history(case, drv, rng, stats, full_every, small)
         prob = None
     except Problem as p:
         prob, facts = p, None
     except AlarmTimeout:
-        prob, facts = Problem("violation", "a call of the history did not return within 60 s", -1), None
+        prob, facts = Problem("violation", "a call of the history did not return within 20 s", -1), None
     finally:
         signal.alarm(0)
     if record and facts is not None:
@@ -1214,6 +1239,9 @@ def shrink(ctx, drv, case, prob, rng):
 
 
 def report(ctx, drv, case, prob, rng):
+    if prob.step < 0:      # a hang: do not re-run it while shrinking
+        ctx.violation(case, prob.what)
+        return
     try:
         if drv is not None:
             drv.batch(["reset %d" % NSLOT])
@@ -1259,10 +1287,16 @@ def alphabet3():
 
 
 def run(ctx):
+    try:
+        Real([0, 1]).do(0, ("addedge", (0, 1), None, None))
+    except Exception as ex:   # a tree that cannot even be imported contradicts every clause of the property
+        ctx.violation({"labels": [0, 1], "cmds": [], "pool": [], "n": 2, "kind": "int"},
+                      f"hypergraphx.Hypergraph cannot be imported / constructed: {type(ex).__name__}: {ex}")
+        return
     drv = ctx.driver() if ctx.model_available else None
     rng = ctx.rng
     stats = {}
-    n_hist = ctx.scale(260, 9000)
+    n_hist = ctx.scale(260, 5000)
     for k in range(n_hist):
         case = gen_case(rng)
         ctx.count("label_kind:" + case["kind"])
@@ -1276,12 +1310,12 @@ def run(ctx):
             break
     if ctx.tier == "thorough" and not ctx.too_many(1):
         A = alphabet3()
-        for w in (False, True):
-            for L in (1, 2, 3):
+        for w, lengths in ((False, (1, 2, 3)), (True, (1, 2))):
+            for L in lengths:
                 for ops in itertools.product(A, repeat=L):
                     cmds = ([("new", 0, True, {})] if w else []) + [("on", 0, o) for o in ops]
                     case = {"n": 3, "kind": "int", "labels": [0, 1, 2], "pool": [[0, 1], [0, 1, 2], [1, 2], [1], []], "cmds": cmds}
-                    prob = check_history(ctx, drv, case, rng, None)
+                    prob = check_history(ctx, drv, case, rng, None, small=True)
                     ctx.count("exhaustive_short_histories")
                     if prob is not None:
                         report(ctx, drv, case, prob, rng)
